@@ -52,6 +52,9 @@ func runC01(c *an.Ctx) {
 	}
 	submit := mustFunc(c, lsImp+"submitBlock")
 	recover := mustFunc(c, lsImp+"recoverStore")
+	if sbm := mustFunc(c, lsImp+"submitBlock"); sbm != nil && recover != nil {
+		replayCoversCommit(c, sbm, recover)
+	}
 	initF := mustFunc(c, lsImp+"init")
 	if submit == nil || recover == nil || initF == nil {
 		return
